@@ -1,6 +1,5 @@
 """Properties not claimed, each with the measured reason (DESIGN.md section 2)."""
 NOT_APPLICABLE = {
-    "C11": "The observable risk is hash-seed dependence of http_types::Headers (a HashMap) and of the hand-written Response equality; a single HashMap insert+get under Kani's nondeterministic RandomState keys does not get a SAT verdict in 9 min (SipHash), a concrete http_types::Response::new(200) does not either; the rest (no clock/randomness in the runtime, cross-process replay) is whole-runtime (see C01).",
     "C14": "Fidelity of method/URL/headers/body runs through url::Url::parse, http_types header maps and Display formatting (to_string() is the subject, so fmt cannot be stubbed): input-length-proportional third-party parsers, IDNA/percent-encoding tables; no integer kernel to isolate.",
     "C20": "The CLI registry is computed by a datalog engine (ascent) over a rustdoc-JSON graph of 10^3-10^4 items held in hash maps and strings; invariance under renumbering quantifies over permutations of that graph; nothing loop-free or small-state to encode.",
 }
